@@ -186,9 +186,19 @@ def run(chk: common.Check):
     wexprs, wmeta = [], []
     combos = [((0.0, 14.0, 0.1), w) for w in WINDOWS[:6 if not chk.thorough else 10]] + \
              [((0.0, 14.0, 0.05), (3.0, 9.0, 0.2)), ((2.0, 10.0, 0.125), (2.0, 10.0, 0.5)), ((0.0, 14.0, 0.5), (0.0, 14.0, 1.0)),
-              ((0.0, 14.0, 0.25), (0.5, 13.5, 0.75))]
+              ((0.0, 14.0, 0.25), (0.5, 13.5, 0.75)),
+              # windows that are NOT sub-lattices of the grid (only the common points are printed)
+              ((0.0, 14.0, 0.4), (0.0, 14.0, 1.0)), ((0.5, 14.0, 0.5), (0.0, 14.0, 1.0)), ((0.0, 14.0, 0.25), (0.0, 14.0, 0.1)), ((0.0, 14.0, 0.5), (0.25, 14.0, 1.0))]
     text1 = structures.read("3SGB-subset.pdb" if not chk.thorough else "1HPX.pdb")
-    for grid, win in combos:
+    # an ensemble whose conformations differ (the inhibitor chain displaced in the second model): the reported profile and the reported charges
+    # must still be linked
+    sub = structures.read("3SGB-subset.pdb")
+    from decimal import Decimal as _D
+    moved_i = structures.map_atoms(sub, lambda l: structures.set_xyz(l, structures.get_xyz(l)[0] + _D(40), structures.get_xyz(l)[1], structures.get_xyz(l)[2]) if l[21] == "I" else l)
+    ensemble = structures.as_models([sub, moved_i])
+    combos_texts = [(g, w, text1) for g, w in combos] + [((0.0, 14.0, 0.1), (0.0, 14.0, 1.0), ensemble), ((2.0, 9.0, 0.05), (2.0, 9.0, 0.5), ensemble)]
+    combos = [(g, w) for g, w, _ in combos_texts]
+    for grid, win, text1 in combos_texts:
         opts = ["-g"] + [repr(v) for v in grid] + ["-w"] + [repr(v) for v in win]
         ref = rng.choice(["neutral", "low-pH"])
         m2, _ = structures.run(text1, opts)
